@@ -114,9 +114,19 @@ def lookupArg (args : Args) (p : String) : R Arg :=
   | some a => pure a
   | none => throw (.other "unbound parameter")
 
+/-- Python `x + k` for an int literal `k` -/
+def pyAddInt (a : Arg) (k : Int) : R Arg :=
+  match a with
+  | .val (.int i) => .ok (.val (.int (i + k)))
+  | .val (.bool b) => .ok (.val (.int ((if b then 1 else 0) + k)))
+  | .val (.float q) => .ok (.val (.float (q + (k : Rat))))
+  | .val .nan => .ok (.val .nan)
+  | _ => .error .typeError
+
 def evalTerm (args : Args) : GTerm → R Arg
   | .param p => lookupArg args p
   | .lit i => pure (.val (.int i))
+  | .add a k => do pyAddInt (← evalTerm args a) k
 
 /-- a guard condition, with Python's short-circuit `and` / `or` -/
 def evalCond (args : Args) : GCond → R Bool
@@ -495,7 +505,6 @@ def stageCore (settings : Option Settings) (pwPresent : Bool) (st : Core) : Init
   | .makeConfig => do
     let cfg ← makeConfig (settings.getD [])
     pure { st with config := some cfg }
-  | .printConfig => pure st
   | .instantiateConfig =>
     match st.config with
     | none => throw (.other "config not built yet")
@@ -520,7 +529,6 @@ def stageCore (settings : Option Settings) (pwPresent : Bool) (st : Core) : Init
     | some { cipher := some c, .. } => if st.derived then do cipherEncrypt c; pure { st with sealed := true }
                                        else throw (.other "no user key yet")
     | _ => throw (.other "no cipher")
-  | .writeKey => pure st
   | .uploadConfig =>
     match st.config with
     | none => throw (.other "config not built yet")
@@ -556,8 +564,8 @@ def accept (settings : Option Settings) (pwPresent : Bool) : Bool := (runInit se
 /-- The order of `init` this model was written against; `Properties/C17.lean` proves `initStages = canonicalStages`
 (bridge) — an edit that moves the upload breaks that proof. -/
 def canonicalStages : List (InitStage × Bool) :=
-  [(.validate, false), (.makeConfig, false), (.printConfig, false), (.instantiateConfig, false),
-   (.passwordCheck, true), (.makeKey, true), (.instantiateKey, true), (.encryptPrivate, true), (.writeKey, true),
+  [(.validate, false), (.makeConfig, false), (.instantiateConfig, false),
+   (.passwordCheck, true), (.makeKey, true), (.instantiateKey, true), (.encryptPrivate, true),
    (.uploadConfig, false)]
 
 /-! ## `usable`: documented preconditions of the primitives (specification) -/
@@ -630,25 +638,47 @@ def usable (st : St) : Bool :=
         | some k => kdfUsable (k.userKdf.row, k.userKdf.args)
         | none => false))
 
-/-- first failing slot of `usable`, for the harness (signature of a finding) -/
+def isIntLike (a : Arg) : Bool := (intLike a).isSome
+
+/-- why a slot is not usable — the stable part of a finding's signature -/
+def hasherWhy (p : AdapterRow × Args) : String :=
+  if !hasKind p.1 "HashAdapter" then "hashing:wrong-kind"
+  else if p.1.name == "blake2b" then
+    (if !isIntLike (argOf p.2 "length") then "hashing:blake2b:non-integer"
+     else if !intBetween (argOf p.2 "length") 1 64 then "hashing:blake2b:out-of-range"
+     else "hashing:blake2b:digest-too-short")
+  else "hashing:" ++ p.1.name ++ ":parameters"
+
+def chunkerWhy (p : AdapterRow × Args) : String :=
+  if !hasKind p.1 "ChunkerAdapter" then "chunking:wrong-kind"
+  else match intLike (argOf p.2 "min_length"), intLike (argOf p.2 "max_length") with
+    | some mn, some mx => if mn < 1 then "chunking:" ++ p.1.name ++ ":below-one"
+                          else if mx < mn then "chunking:" ++ p.1.name ++ ":min-above-max"
+                          else "chunking:" ++ p.1.name ++ ":parameters"
+    | _, _ => "chunking:" ++ p.1.name ++ ":non-integer"
+
+def cipherWhy (p : AdapterRow × Args) : String :=
+  if !hasKind p.1 "CipherAdapter" then "cipher:wrong-kind"
+  else if p.1.name == "aes_gcm" && !isPlainIntIn (argOf p.2 "key_bits") [128, 192, 256] then "cipher:aes_gcm:key-bits"
+  else if p.1.name == "aes_gcm" then "cipher:aes_gcm:nonce"
+  else "cipher:" ++ p.1.name ++ ":parameters"
+
+def kdfWhy (p : AdapterRow × Args) : String :=
+  if !hasKind p.1 "KDFAdapter" then "kdf:wrong-kind" else "kdf:" ++ p.1.name ++ ":parameters"
+
+/-- failing slots of `usable`, for the harness (signature of a finding) -/
 def unusableWhy (st : St) : List String :=
   match st.config with
   | none => ["no-config"]
   | some cfg =>
-    (if hasherUsable cfg.hashing then [] else
-      [if !hasKind cfg.hashing.1 "HashAdapter" then "hashing:wrong-kind"
-       else if cfg.hashing.1.name == "blake2b" && intBetween (argOf cfg.hashing.2 "length") 1 64 then "hashing:blake2b-digest-too-short"
-       else "hashing:" ++ cfg.hashing.1.name ++ "-parameters"]) ++
-    (if chunkerUsable cfg.chunking then [] else
-      [if hasKind cfg.chunking.1 "ChunkerAdapter" then "chunking:" ++ cfg.chunking.1.name ++ "-parameters" else "chunking:wrong-kind"]) ++
+    (if hasherUsable cfg.hashing then [] else [hasherWhy cfg.hashing]) ++
+    (if chunkerUsable cfg.chunking then [] else [chunkerWhy cfg.chunking]) ++
     (match cfg.cipher with
      | none => []
      | some ci =>
-       (if cipherUsable ci then [] else
-         [if hasKind ci.1 "CipherAdapter" then "cipher:" ++ ci.1.name ++ "-parameters" else "cipher:wrong-kind"]) ++
+       (if cipherUsable ci then [] else [cipherWhy ci]) ++
        (match st.key with
-        | some k => if kdfUsable (k.userKdf.row, k.userKdf.args) then [] else
-            [if hasKind k.userKdf.row "KDFAdapter" then "kdf:" ++ k.userKdf.row.name ++ "-parameters" else "kdf:wrong-kind"]
+        | some k => if kdfUsable (k.userKdf.row, k.userKdf.args) then [] else [kdfWhy (k.userKdf.row, k.userKdf.args)]
         | none => ["kdf:no-key"]))
 
 /-! ## the region of the settings space in which `init` exercises nothing (D12)
